@@ -574,25 +574,31 @@ class List(list, base.Symbolic, pg_typing.CustomTyping):
           self._error_message('Cannot delete List item while accessor_writable '
                               'is set to False. '
                               'Use \'rebind\' method instead.'))
-    if not isinstance(index, numbers.Integral):
+    if isinstance(index, slice):
+      # Delete from the largest position, so the remaining ones do not shift.
+      indices = sorted(range(*self._parse_slice(index)), reverse=True)
+    elif not isinstance(index, numbers.Integral):
       raise TypeError(
           f'list index must be an integer. Encountered {index!r}.')
-
-    if index < -len(self) or index >= len(self):
+    elif index < -len(self) or index >= len(self):
       raise IndexError(
           f'list index out of range. '
           f'Length={len(self)}, index={index}')
+    else:
+      indices = [index]
 
-    old_value = self.sym_getattr(index)
-    super().__delitem__(index)
-
-    if flags.is_change_notification_enabled():
-      self._notify_field_updates([
+    updates = []
+    for i in indices:
+      old_value = self.sym_getattr(i)
+      super().__delitem__(i)
+      updates.append(
           base.FieldUpdate(
-              self.sym_path + index, self,
+              self.sym_path + i, self,
               self._value_spec.element if self._value_spec else None,
-              old_value, pg_typing.MISSING_VALUE)
-      ])
+              old_value, pg_typing.MISSING_VALUE))
+
+    if flags.is_change_notification_enabled() and updates:
+      self._notify_field_updates(updates)
 
   def __add__(self, other: Iterable[Any]) -> 'List':
     """Returns a concatenated List of self and other."""
